@@ -142,7 +142,7 @@ def advance(rnd, now, layout, room=None):
         d = rnd.pick(retentions(layout)) + rnd.randint(-1, 1)
     else:
         d = rnd.randint(R, 2 * R)
-    hi = TMAX - 2 * R - 1
+    hi = TMAX - 2 * R - 1 if now < TMAX else 2 ** 32 - 2 * R - 8      # a late clock stays late
     return min(now + max(d, 0), hi)
 
 
